@@ -171,6 +171,10 @@ func (c *compiler) evalAssignExpression(node *ast.AssignExpression) (interface{}
 }
 
 func (c *compiler) evalUserFunction(node *userFunction, args []ast.Expression) (interface{}, error) {
+	if len(args) < len(node.Parameters) {
+		return nil, fmt.Errorf("too few arguments in call to function (%d for %d)", len(args), len(node.Parameters))
+	}
+
 	octx := c.ctx
 	defer func() { c.ctx = octx }()
 
